@@ -1022,6 +1022,15 @@ func c13tree(c *Ctx, m *rm.Tree, shapes []*rm.Tree, si, ndev int, quick bool) {
 		c13eachChain(k, depth, func(chain []string) {
 			c13exec(c, c13case{Part: "chain", Chain: chain}, list)
 		})
+		// (4') the command line on single trees with one deviation (every label, length and support of the menus once)
+		if ndev == 1 && li == 0 && (n <= 3 || (!quick && n <= 4)) {
+			for _, in := range c13writers[:4] {
+				for _, out := range c13writers[:4] {
+					c13exec(c, c13case{Part: "cli", Chain: []string{in, out}}, list)
+					c.Count("cli_runs_on_deviated_trees", 1)
+				}
+			}
+		}
 		if ndev > 1 || li == 3 || (ndev > 0 && ((quick && n >= 5) || n >= 6)) {
 			continue
 		}
@@ -1087,7 +1096,7 @@ func init() {
 			"all_delivered_newick", "all_delivered_nexus", "all_delivered_phyloxml", "all_delivered_nextstrain", "all_delivered_lists_of_2_or_3",
 			"single_equals_first_of_multi_newick", "single_equals_first_of_multi_nexus", "single_equals_first_of_multi_phyloxml", "single_equals_first_of_multi_nextstrain",
 			"error_record_ends_delivery_newick", "lists_of_1", "lists_of_2", "lists_of_3", "trees_rooted", "trees_unrooted", "trees_without_lengths", "trees_with_all_lengths", "trees_with_some_lengths",
-			"trees_with_supports", "trees_without_supports", "documents_newick", "documents_nexus", "documents_phyloxml", "documents_nextstrain", "cli_runs",
+			"trees_with_supports", "trees_without_supports", "documents_newick", "documents_nexus", "documents_phyloxml", "documents_nextstrain", "cli_runs", "cli_runs_on_deviated_trees",
 			// every layout class / document variant that is expected to be readable delivered all its trees at least once (an error record is accepted by the statement, but not on all of them)
 			"all_delivered_newick:one-per-line", "all_delivered_newick:no-final-newline", "all_delivered_newick:crlf", "all_delivered_newick:blank-lines", "all_delivered_newick:trailing-blanks",
 			"all_delivered_newick:leading-blanks", "all_delivered_newick:multi-line-trees",
